@@ -10,7 +10,7 @@ use dvb_gse_rust::gse_encap::{
 };
 use dvb_gse_rust::header_extension::Extension;
 use dvb_gse_rust::label::Label;
-use std::panic::{catch_unwind, AssertUnwindSafe};
+use std::panic::AssertUnwindSafe;
 
 #[derive(Clone, Debug)]
 pub struct Pdu {
@@ -132,7 +132,7 @@ pub fn reported_len(r: &EncRes) -> Option<usize> {
 pub fn build_exts(specs: &[ExtSpec]) -> Option<Vec<Extension>> {
     let mut v = vec![];
     for s in specs {
-        match catch_unwind(|| Extension::new(s.id, &s.data)) {
+        match cu("extnew", || Extension::new(s.id, &s.data)) {
             Ok(Ok(e)) => v.push(e),
             _ => return None,
         }
@@ -164,10 +164,10 @@ pub fn ev_encap<C: CrcCalculator + Clone + PartialEq>(
     let enc_before = enc.clone();
     let md = EncapMetadata::new(ptype, label);
     let res: EncRes = match exts {
-        None => catch_unwind(AssertUnwindSafe(|| enc.encap(&pdu.bytes, fragid, md, &mut buf))).ok(),
+        None => cu("encap", AssertUnwindSafe(|| enc.encap(&pdu.bytes, fragid, md, &mut buf))).ok(),
         Some(specs) => match build_exts(specs) {
             Some(v) => {
-                catch_unwind(AssertUnwindSafe(|| enc.encap_ext(&pdu.bytes, fragid, md, &mut buf, v)))
+                cu("encap", AssertUnwindSafe(|| enc.encap_ext(&pdu.bytes, fragid, md, &mut buf, v)))
                     .ok()
             }
             None => return TxOut { res: None, wire: vec![] },
@@ -210,7 +210,7 @@ pub fn ev_encap_frag<C: CrcCalculator + Clone + PartialEq>(
     let before = buf.clone();
     let enc_before = enc.clone();
     let res: EncRes =
-        catch_unwind(AssertUnwindSafe(|| enc.encap_frag(&pdu.bytes, ctx, &mut buf))).ok();
+        cu("encap_frag", AssertUnwindSafe(|| enc.encap_frag(&pdu.bytes, ctx, &mut buf))).ok();
     let state_same = *enc == enc_before;
     let buf_same = buf == before;
     let n = reported_len(&res).unwrap_or(0).min(buflen);
@@ -236,11 +236,11 @@ pub fn ev_encap_frag<C: CrcCalculator + Clone + PartialEq>(
 pub fn ev_preview(out: &mut Out, pdu: &Pdu, label: Label, ptype: u16, buflen: usize) {
     let buf = fill_pattern(buflen, 0x11);
     let md = EncapMetadata::new(ptype, label);
-    let prev = catch_unwind(AssertUnwindSafe(|| encap_preview(&pdu.bytes, md, &buf))).ok();
+    let prev = cu("preview", AssertUnwindSafe(|| encap_preview(&pdu.bytes, md, &buf))).ok();
     let mut enc = Encapsulator::new(DefaultCrc {});
     let mut buf2 = buf.clone();
     let res: EncRes =
-        catch_unwind(AssertUnwindSafe(|| enc.encap(&pdu.bytes, 0, md, &mut buf2))).ok();
+        cu("encap", AssertUnwindSafe(|| enc.encap(&pdu.bytes, 0, md, &mut buf2))).ok();
     let n = reported_len(&res).unwrap_or(0).min(buflen);
     let line = Obj::new()
         .str("ev", "preview")
@@ -257,11 +257,11 @@ pub fn ev_preview(out: &mut Out, pdu: &Pdu, label: Label, ptype: u16, buflen: us
 
 pub fn ev_frag_preview(out: &mut Out, pdu: &Pdu, ctx: &ContextFrag, buflen: usize) {
     let buf = fill_pattern(buflen, 0x22);
-    let prev = catch_unwind(AssertUnwindSafe(|| encap_frag_preview(&pdu.bytes, ctx, &buf))).ok();
+    let prev = cu("preview", AssertUnwindSafe(|| encap_frag_preview(&pdu.bytes, ctx, &buf))).ok();
     let enc = Encapsulator::new(DefaultCrc {});
     let mut buf2 = buf.clone();
     let res: EncRes =
-        catch_unwind(AssertUnwindSafe(|| enc.encap_frag(&pdu.bytes, ctx, &mut buf2))).ok();
+        cu("encap_frag", AssertUnwindSafe(|| enc.encap_frag(&pdu.bytes, ctx, &mut buf2))).ok();
     let n = reported_len(&res).unwrap_or(0).min(buflen);
     let line = Obj::new()
         .str("ev", "frag_preview")
